@@ -74,6 +74,10 @@ def check_case(acc, chain_l, locking, env_seq, split=None, units=None, init=None
         spec['init']['theta'] = [si.convert(spec['init']['theta'][0], 'AngularPosition', 'rad', units['theta']), units['theta']]
     if 'w' in units:
         spec['init']['w'] = [si.convert(spec['init']['w'][0], 'AngularSpeed', 'rad/s', units['w']), units['w']]
+    if 'scale' in units:
+        # micro / mega mechanism: every torque and inertia times units['scale'] (same motion), written in kNm / kgm^2 or mNmm / gmm^2
+        big = units['scale'] > 1
+        spec = menu.scaled(spec, units['scale'], 'mNmm' if big else 'kNm', 'gmm^2' if big else 'kgm^2')
     stall = menu.stall_at_output(spec)
     duty = [ENV[i][0] for i in env_seq]
     spec['load'] = ['script', [ENV[i][1] * stall for i in env_seq]]
@@ -162,6 +166,9 @@ def run_shard(shard, tier):
                 check_case(acc, chain_l, locking, mixed, units={'theta': u})
             for u in si.UNITS['AngularSpeed']:
                 check_case(acc, chain_l, locking, mixed, units={'w': u})
+            for sc in (1e-9, 1e6):
+                check_case(acc, chain_l, locking, mixed, units={'scale': sc})
+                check_case(acc, chain_l, locking, mixed, units={'scale': sc}, split=4)
             if first:
                 acc.sample({'chain': menu.chain_name(chain_l), 'mode': 'unit deviations', 'env_sequence': [ENV[i] for i in mixed]})
                 first = False
